@@ -1,6 +1,7 @@
 package ed25519
 
 import (
+	"crypto/sha512"
 	"bytes"
 	"crypto"
 	stded "crypto/ed25519"
@@ -300,6 +301,86 @@ func jobC02(c *rt.Ctx) {
 		}
 		if c.WantSample() && k.vi > 0 {
 			c.Sample(map[string]interface{}{"seed": ref.Hex(seed), "msg_len": len(msg), "variant": sv.v.String(), "ctx_len": len(sv.ctx), "signature": ref.Hex(want)})
+		}
+	}
+	// (5) dense lengths: EVERY message length 0..8320 (and windows around 16384, 32768, 65536) under
+	// pure, a 1-byte and a 255-byte context - the hashed inputs dom2 || prefix || M and
+	// dom2 || R || A || M then take every total length across 4096 and 8192 whatever the split between
+	// context and message; plus the argument coincidences: the message is (or contains) the key, the
+	// seed, a signature, the dom2 label, the context
+	c.Require("dense-length", "coincidence")
+	var dl []int
+	for l := 0; l <= 8320; l++ {
+		dl = append(dl, l)
+	}
+	for _, m := range []int{16384, 32768, 65536} {
+		for l := m - 330; l <= m+40; l++ {
+			dl = append(dl, l)
+		}
+	}
+	dvars := []signVariant{{ref.Pure, ""}, {ref.Ctx, "c"}, {ref.Ctx, strings.Repeat("k", 255)}}
+	signAndCompare := func(class, what string, seed, msg []byte, sv signVariant) {
+		want := ref.Sign(seed, msg, sv.v, []byte(sv.ctx))
+		priv := NewKeyFromSeed(seed)
+		o := &Options{Context: sv.ctx}
+		if sv.v == ref.Ph {
+			o.Hash = crypto.SHA512
+		}
+		sig, err := priv.Sign(nil, msg, o)
+		c.Step(1)
+		c.Class(class)
+		if err != nil || !bytes.Equal(sig, want) {
+			c.Violation(fmt.Sprintf("C02 %s variant=%s", class, sv.v), fmt.Sprintf("signature differs from RFC 8032 5.1.6 (%s, msg len %d, %s, ctx len %d)", what, len(msg), sv.v, len(sv.ctx)),
+				map[string]interface{}{"seed": ref.Hex(seed), "msg_len": len(msg), "msg_head": ref.Hex(msg[:minI(len(msg), 64)]), "ctx_len": len(sv.ctx), "variant": sv.v.String(), "expected": ref.Hex(want), "observed": ref.Hex(sig), "err": fmt.Sprint(err), "what": what})
+			return
+		}
+		for _, zip := range []bool{false, true} {
+			got, pv := implSingle(triple{priv[32:], msg, sig}, variantSpec{sv.v, sv.ctx}, zip)
+			c.Step(1)
+			if !got || pv != nil {
+				c.Violation(fmt.Sprintf("C02 %s verify variant=%s", class, sv.v), fmt.Sprintf("the RFC 8032 signature is rejected (%s, msg len %d, %s, ctx len %d, zip215=%v)", what, len(msg), sv.v, len(sv.ctx), zip), map[string]interface{}{"seed": ref.Hex(seed), "msg_len": len(msg), "ctx_len": len(sv.ctx)})
+			}
+		}
+	}
+	for li, l := range dl {
+		for vi, sv := range dvars {
+			if !c.Take() {
+				continue
+			}
+			c.Distinct(fmt.Sprintf("dl %d %d", l, vi), true)
+			signAndCompare("dense-length", "dense length sweep", seedOf(li%5), msgLen(l, li), sv)
+		}
+	}
+	for si := 0; si < 3; si++ {
+		seed := seedOf(si)
+		pub := refPublic(si)
+		sig0 := ref.Sign(seed, nil, ref.Pure, nil)
+		cat := func(bs ...[]byte) []byte { return bytes.Join(bs, nil) }
+		label := []byte("SigEd25519 no Ed25519 collisions")
+		coinc := []struct {
+			name string
+			msg  []byte
+		}{
+			{"msg=public key", pub}, {"msg=seed", seed}, {"msg=private key", cat(seed, pub)}, {"msg=signature of empty", sig0},
+			{"msg=R||A", cat(sig0[:32], pub)}, {"msg=sig||pub", cat(sig0, pub)}, {"msg=pub||pub", cat(pub, pub)}, {"msg=S half", sig0[32:]},
+			{"msg=dom2 label", label}, {"msg=dom2(ctx,c)", ref.Dom2(ref.Ctx, []byte("c"))}, {"msg=dom2(ph,c)||64", cat(ref.Dom2(ref.Ph, []byte("c")), msgLen(64, 1))},
+			{"msg=L", ref.ToLE(ref.L, 32)}, {"msg=base point", ref.Base().Encode()}, {"msg=32 zero bytes", make([]byte, 32)}, {"msg=64 zero bytes", make([]byte, 64)},
+			{"msg=context", []byte("c")}, {"msg=sha512(seed)", func() []byte { h := sha512.Sum512(seed); return h[:] }()},
+		}
+		for ci, cc := range coinc {
+			for vi, sv := range []signVariant{{ref.Pure, ""}, {ref.Ctx, "c"}, {ref.Ph, ""}, {ref.Ph, "c"}, {ref.Ctx, string(pub)}, {ref.Ctx, string(cc.msg[:minI(len(cc.msg), 255)])}} {
+				if sv.v == ref.Ph && len(cc.msg) != 64 {
+					continue
+				}
+				if sv.v == ref.Ctx && sv.ctx == "" {
+					continue
+				}
+				if !c.Take() {
+					continue
+				}
+				c.Distinct(fmt.Sprintf("co %d %d %d", si, ci, vi), true)
+				signAndCompare("coincidence", cc.name, seed, cc.msg, sv)
+			}
 		}
 	}
 }
